@@ -1,14 +1,15 @@
-//! Operations for C07 (see ops.rs). Fill in: return Some(outcome) for the ops this module owns.
+//! The increment rounder through the verification hook (C07).
 use crate::js::{self, big, int};
-use crate::ops::{utc, FS};
 use crate::proj::*;
 use serde_json::{json, Value};
-use temporal_rs::options::*;
-use temporal_rs::*;
 
 pub fn exec(op: &str, a: &Value) -> Option<Value> {
-    let _ = a;
-    match op {
-        _ => None,
-    }
+    Some(match op {
+        "Round.i128" => run_inf(|| temporal_rs::verif::round_i128(num(&a["x"]), num(&a["inc"]) as u128, arg_mode(js::s(a, "mode"))),
+                                |r| match r { Some(v) => big(*v), None => json!("none") }),
+        // the value x2/2 (a half-integer) in the f64 instantiation
+        "Round.f64" => run_inf(|| temporal_rs::verif::round_f64(js::i(a, "x2") as f64 / 2.0, num(&a["inc"]) as u128, arg_mode(js::s(a, "mode"))),
+                               |r| match r { Some(v) => big(*v), None => json!("none") }),
+        _ => return None,
+    })
 }
